@@ -1167,3 +1167,21 @@ def chosen_by_bounded_search(fl, op, depth=0, seen=None):
             if chosen_by_bounded_search(fl, a, depth + 1, seen):
                 return True
     return False
+
+
+class RidProxy:
+    """runs another property's rule function under this property's rule id: every rule-id argument is translated"""
+
+    def __init__(self, ctx, mapping):
+        self._ctx, self._map = ctx, mapping
+
+    def __getattr__(self, name):
+        target = getattr(self._ctx, name)
+        if not callable(target):
+            return target
+        mp = self._map
+
+        def call(*a, **k):
+            a = tuple(mp.get(x, x) if isinstance(x, str) else x for x in a)
+            return target(*a, **k)
+        return call
